@@ -24,6 +24,7 @@ from ..exctable import ExcTable
 from ..explore import Explorer
 from ..loader import NOFOLD, AnalysisError, EnumMember, Repo
 from ..report import Check, canon
+from ..mayraise import UNTYPED
 from .e1_common import check_entry, engine, finish
 
 M = "xknx.telegram.address"
@@ -344,8 +345,13 @@ def run(chk: Check, repo: Repo) -> None:
     for q in ("IndividualAddress.__init__", "GroupAddress.__init__", "InternalGroupAddress.__init__"):
         f = repo.func(M, q)
         check_entry(chk, mr, f, ("CouldNotParseAddress",), label=f"{q} (any text)", )
+        # ... and "non-string objects given to the address constructors": the argument as a value of unchecked type
+        ap = [a.arg for a in f.node.args.args if a.arg != "self"][:1]
+        check_entry(chk, mr, f, ("CouldNotParseAddress",), label=f"{q} (any object)", argkinds={a: frozenset([UNTYPED]) for a in ap})
     f = repo.func(M, "parse_device_group_address")
     check_entry(chk, mr, f, ("CouldNotParseAddress",), label="parse_device_group_address")
+    ap = [a.arg for a in f.node.args.args][:1]
+    check_entry(chk, mr, f, ("CouldNotParseAddress",), label="parse_device_group_address (any object)", argkinds={a: frozenset([UNTYPED]) for a in ap})
     chk.rule("E2 bit-record round trip renderer -> regex shape -> parser per notation; E1 may-raise analysis of the address constructors; structural wire-form and internal-address normal form")
     chk.assume("decimal str()/int() of a non-negative int is the identity; int() accepts every string of Unicode decimal digits (category Nd), which is what \\\\d matches")
     finish(chk, mr)
